@@ -19,7 +19,7 @@ RULE = ("cases: linear_cg called directly on SPD matrices with prescribed spectr
         "columns give exactly zero; columns whose convergence mask is set stop changing; x(c b) = c x(b); preconditioned limit = unpreconditioned "
         "limit; tridiagonals symmetric tridiagonal with Ritz values inside the spectrum and e1^T f(T) e1 = z^T f(A) z (f = log, 1/x) at full "
         "dimension; NaN closures and max_tridiag_iter > max_iter raise; iteration events beyond the documented bound abort. distinct key = "
-        "(clause, spectrum family, kappa decade, preconditioner, dtype, batch rank) [added: matrices at scale 1e12 (float64), judged on the tridiagonal clauses only - the solver's absolute eps safeguards make the convergence clauses undecidable there; accuracy floor relative to max(e_0, ||x*||_A)] [round 4: column_scaling_linearity - one column alone rescaled (per batch member) to norm 3e-9 (above the 1e-10 zero threshold) or 1e6 scales its answer and leaves the other columns untouched] [round 5: tridiag_recorded_while_a_probe_is_alive - T shorter than min(max_tridiag_iter, iterations run - 1) only if every tracked unmasked probe's Krylov space (float64 Arnoldi) is exhausted]")
+        "(clause, spectrum family, kappa decade, preconditioner, dtype, batch rank) [added: matrices at scale 1e12 (float64), judged on the tridiagonal clauses only - the solver's absolute eps safeguards make the convergence clauses undecidable there; accuracy floor relative to max(e_0, ||x*||_A)] [round 4: column_scaling_linearity - one column alone rescaled (per batch member) to norm 3e-9 (above the 1e-10 zero threshold) or 1e6 scales its answer and leaves the other columns untouched] [round 5: tridiag_recorded_while_a_probe_is_alive - T shorter than min(max_tridiag_iter, iterations run - 1) only if every tracked unmasked probe's Krylov space (float64 Arnoldi) is exhausted] [round 6: no_warning_implies_tolerance is judged also when the solver did not iterate at all; the alive test of the recording clause treats a probe whose normalised residual is below 1e-4 as converged]")
 ASSUMPTIONS = ["float64 dense solve / eigendecomposition is the reference", "cg.* hook events expose the normalised iterate and residual per iteration",
                "phi calibrated on the unchanged tree (DESIGN 5, C08)"]
 REQUIRED_STATS = ("runs", "cg_iter_events")
